@@ -23,7 +23,7 @@ func c10Base(t *decl.Type, pos int) string {
 	return ""
 }
 
-var c10Slices = []*decl.Type{nil, decl.TStrings, decl.TInts}
+var c10Slices = []*decl.Type{nil, decl.TStrings, decl.TInts, decl.TPStrs}
 
 var c10Units = [][]string{{"w"}, {"7"}, {"-3"}, {"-v"}, {"-s", "val"}, {"--"}, {"-x"}, {"cmd"}, {"-2"}, {"010"}, {"k:1"}, {`"7"`}, {"--str="}}
 
@@ -99,10 +99,13 @@ func init() {
 		si := c.Choose(len(c10Slices))
 		owner := c.Choose(3)
 		popt := c.Choose(4) // bit 0 PassDoubleDash, bit 1 PassAfterNonOption
+		if si == 3 && (owner != 0 || popt == 0) {
+			c.Skip() // the slice of pointers goes with the parser-owned layouts under the pass-through options
+		}
 		pdd := popt&1 != 0
 		api := c.Bool()
 		maxDepth := 4
-		if len(layouts[li]) == 3 || popt >= 2 || owner == 2 {
+		if len(layouts[li]) >= 2 || popt >= 2 || owner == 2 {
 			maxDepth = 3 // the larger declaration families go one unit less deep
 		}
 		if c.Thorough {
@@ -239,8 +242,8 @@ func init() {
 		Level:      "model_checking",
 		ShardDepth: 5,
 		Body:       body,
-		Rule: "positional layouts: every sequence of 0..3 scalar fields over {string, int, Unmarshaler, map[string]int} (an int field at an odd position carries base:\"8\") x trailing slice {none, []string, []int} x owner {parser, command, both (the same layout on each)} x {None, PassDoubleDash, PassAfterNonOption, both} x {tags, API} " +
-			"x every sequence of <= 4 units (<= 3 for three-field layouts, PassAfterNonOption and both-owner declarations; thorough: one more everywhere, 6 for parser-owned layouts built through the API with PassDoubleDash) over {w, 7, -3, 010 (ten, or eight where the field says base 8), --str= (the empty value, attached), k:1, a quoted 7 (with its quotes: a positional is taken verbatim), -v, -s val, -2 (a declared flag with a digit as short name), --, -x, cmd}; oracle = CLM positional queue (field values after conversion, overflow into remaining arguments); after every accepted vector the public Args() list must still be the declared one and, for layouts without a slice, a second parse of the same vector on the same parser must bind the same fields",
+		Rule: "positional layouts: every sequence of 0..3 scalar fields over {string, int, Unmarshaler, map[string]int} (an int field at an odd position carries base:\"8\") x trailing slice {none, []string, []int, []*string (parser-owned layouts with a pass-through option)} x owner {parser, command, both (the same layout on each)} x {None, PassDoubleDash, PassAfterNonOption, both} x {tags, API} " +
+			"x every sequence of <= 4 units (<= 3 for layouts of two or three fields, PassAfterNonOption and both-owner declarations; thorough: one more everywhere, 6 for parser-owned layouts built through the API with PassDoubleDash) over {w, 7, -3, 010 (ten, or eight where the field says base 8), --str= (the empty value, attached), k:1, a quoted 7 (with its quotes: a positional is taken verbatim), -v, -s val, -2 (a declared flag with a digit as short name), --, -x, cmd}; oracle = CLM positional queue (field values after conversion, overflow into remaining arguments); after every accepted vector the public Args() list must still be the declared one and, for layouts without a slice, a second parse of the same vector on the same parser must bind the same fields",
 		Assumptions:  []string{"conversion of the alphabet's tokens is taken from the conversion model (checked against the library by C11)"},
 		RequiredHits: []string{"compared", "three-or-more-bound", "after-terminator", "conversion-fault", "second-parse"},
 		Bound:        [2]string{"all unit sequences of length <= 4", "all unit sequences of length <= 5 (<= 6 on one declaration family)"},
